@@ -20,6 +20,19 @@ class TA(Agent):
         self.register_event_handler(["active", "other"], "note", self.on_msg)
     def on_msg(self, e):
         LOG.append((e.data, self.id, self.model.scheduler.current_round, self.model.scheduler.current_step))
+    def act(self, time, sim_round, step):
+        # scripted deletions from INSIDE a step: {global step: [(acting agent, agent it deletes)]}
+        for (actor, victim) in INSTEP.get((sim_round, step), []):
+            if actor == self.id:
+                self.model.delete_agent(victim)
+
+class TN(TA):
+    """an agent whose initialize() creates another agent: the child is appended to the model before its parent"""
+    def initialize(self):
+        TA.initialize(self)
+        self.model.create_agent("a", None)
+
+INSTEP = {}
 
 def run(case):
     """case: dict(n=steps per round, rounds, agents, ops=[(global_step, op...)])
@@ -29,6 +42,11 @@ def run(case):
     m = Model(scheduler=SimultaneousScheduler(), data_collector=DataCollector())
     m.run_specs(0, case["rounds"], dt)
     m.register_agent_factory("a", lambda i, mod, p: TA(i, mod, p))
+    m.register_agent_factory("n", lambda i, mod, p: TN(i, mod, p))
+    INSTEP.clear()
+    for o in case["ops"]:
+        if o[1] == "indelete":
+            INSTEP.setdefault((o[0] // n, o[0] % n), []).append((o[2], o[3]))
     for _ in range(case["agents"]):
         m.create_agent("a", None)
     live = set(range(case["agents"])); nxt = case["agents"]
@@ -51,6 +69,9 @@ def run(case):
                 m.delete_agent(op[2]); live.discard(op[2])
             elif k == "create":
                 m.create_agent("a", None); live.add(nxt); nxt += 1
+            elif k == "createn":
+                # the parent takes the id nxt, the child it creates in initialize() the id nxt + 1
+                m.create_agent("n", None); live.add(nxt); live.add(nxt + 1); nxt += 2
             elif k == "reconf":
                 # reconfiguration: all agents are replaced by op[2] new ones (ids are never reused)
                 m.configure_agents([{"name": "a", "count": op[2]}])
@@ -63,11 +84,21 @@ def run(case):
             m.scheduler.run_step(m, g // n, g % n, None, True)
         except Exception as e:
             return "step %d raised %s: %s" % (g, type(e).__name__, e)
+        # agents deleted from inside this step (by an agent that was itself still there): whether THEY still handled what was
+        # due now is left open, everybody else is held to the property
+        gone = set()
+        for (actor, victim) in INSTEP.get((g // n, g % n), []):
+            if actor in live and actor not in gone and victim in live:
+                gone.add(victim)
+        live -= gone
         # events due now must have been handled in this very step, by the addressed agent, if it is live
         for x in expected:
             if x[2] == g:
                 hits = [l for l in LOG if l[0] == x[0]]
-                if x[1] in live:
+                if x[1] in gone:
+                    if hits and (len(hits) != 1 or hits[0][1] != x[1]):
+                        return "event %r for agent %d (deleted during step %d) was handled %r" % (x[0], x[1], g, hits)
+                elif x[1] in live:
                     if len(hits) != 1:
                         return "event %r for agent %d due in step %d handled %d times: %r" % (x[0], x[1], g, len(hits), hits)
                     if hits[0][1] != x[1] or hits[0][2] * n + hits[0][3] != g:
@@ -112,11 +143,19 @@ def gen(rnd):
                 k = rnd.randint(1, 3)
                 ops.append((g, 'reconf', k))
                 nxt += k
-            elif r < 0.75:
+            elif r < 0.72:
                 ops.append((g, 'delete', rnd.randint(0, nxt)))
-            elif r < 0.85:
+            elif r < 0.77:
+                # at most one deletion from inside a step (who still acts after being deleted in the same step is left open)
+                if not any(o[0] == g and o[1] == 'indelete' for o in ops):
+                    a_ = rnd.randint(0, nxt)
+                    ops.append((g, 'indelete', a_, rnd.choice([a_, rnd.randint(0, a_), rnd.randint(0, nxt)])))
+            elif r < 0.83:
                 ops.append((g, 'create'))
                 nxt += 1
+            elif r < 0.87 and nxt < 14:
+                ops.append((g, 'createn'))
+                nxt += 2
             else:
                 ops.append((g, 'state', rnd.randint(0, nxt), rnd.choice(['active', 'other'])))
     return dict(n=n, rounds=rounds, agents=agents, ops=ops)
@@ -136,14 +175,35 @@ def shrink(case):
     return cur
 
 
+def scripted_cases():
+    """fixed histories run before the random ones: every agent has an event due in the step in which one agent deletes itself /
+    an earlier one / a later one from inside act(); and events addressed to agents that created others in initialize()"""
+    out = []
+    for n in (1, 2):
+        for actor, victim in ((1, 1), (2, 0), (0, 2), (3, 3), (1, 0)):
+            ops = [(g, 'send', 'p%d' % (10 * g + r), r, None, 'msg', 0) for g in (0, 1, 2) for r in range(4)]
+            ops += [(0, 'send', 'd%d' % (100 + r), r, 1, 'note', 1) for r in range(4)]
+            ops.append((1, 'indelete', actor, victim))
+            out.append(dict(n=n, rounds=2, agents=4, ops=sorted(ops, key=lambda o: o[0])))
+        ops = [(0, 'createn'), (0, 'createn'), (1, 'createn')]
+        ops += [(g, 'send', 'p%d' % (10 * g + r), r, None, 'msg', 0) for g in (1, 2) for r in range(2, 8)]
+        ops += [(1, 'send', 'd%d' % (100 + r), r, 1.5, 'note', 3) for r in range(2, 8)]
+        out.append(dict(n=n, rounds=2, agents=2, ops=sorted(ops, key=lambda o: o[0])))
+    return out
+
+
+SCRIPTED = scripted_cases()
+
+
 def main():
     hint = load_hint()
     rnd = random.Random(hint.get('seed', 0))
     t_end = time.time() + hint.get('budget_s', 20)
     n = 0
     failures = []
-    while time.time() < t_end:
-        case = gen(rnd)
+    scripted = list(SCRIPTED)
+    while scripted or time.time() < t_end:
+        case = scripted.pop(0) if scripted else gen(rnd)
         n += 1
         bad = run(case)
         if bad:
